@@ -329,6 +329,13 @@ impl Engine for C06 {
                 let after = if gi % 2 == 0 { vec![] } else { vec![simple_rec(130 + bi, false, if gi % 4 == 1 { Via::LibSync } else { Via::LibAsync })] };
                 out.push(Case { keys: keys.clone(), recs: recs.clone(), damages: vec![BDamage::GarbageTail { total, line, salt: (bi * 7 + gi) as u64 }], after });
             }
+            // one garbage line whose length sits on / next to a power of two, then a valid record
+            if bi == 0 {
+                for (gi, l) in [65535usize, 65536, 65537, (1 << 20) - 1, 1 << 20, (1 << 24) - 2, (1 << 24) - 1, 1 << 24, (1 << 24) + 1].into_iter().enumerate() {
+                    let via = if gi % 2 == 0 { Via::LibSync } else { Via::LibAsync };
+                    out.push(Case { keys: keys.clone(), recs: recs.clone(), damages: vec![BDamage::GarbageTail { total: l, line: l, salt: gi as u64 }], after: vec![simple_rec(140 + gi, gi % 3 == 2, via)] });
+                }
+            }
             // the last record written by the library once more, verbatim, after every
             // single-bit flip of the bytes around its start (a re-insert must be effective
             // whatever happened to the copy in front of it)
@@ -406,7 +413,30 @@ impl Engine for C06 {
         }
         judge(&ctx, &c.keys, &written, st, &format!("after damage {:?}", c.damages))?;
         for (i, r) in c.after.iter().enumerate() {
+            let before_append = std::fs::read(&bucket).unwrap_or_default();
             let rec = write_rec(&ctx, &c.keys, r)?;
+            // an append adds one record: what the valid records in front of it implied stays
+            // (an implementation may tidy garbage away, it may not lose a valid record)
+            {
+                let after_append = std::fs::read(&bucket).unwrap_or_default();
+                let mut expect = before_append.clone();
+                expect.extend(reffmt::encode_record(&rec, EmitStyle { ascii: false, reversed: false }));
+                st.eval(1);
+                for k in &c.keys {
+                    let (want, got) = (ref_lookup(&expect, k), ref_lookup(&after_append, k));
+                    if want != got {
+                        return Err(format!(
+                            "after damage {:?}, append #{i} {:?}: the bucket file ({} -> {} bytes) no longer implies what its valid records plus the appended one imply for key {k:?}: {:?} instead of {:?}",
+                            c.damages,
+                            r.via,
+                            before_append.len(),
+                            after_append.len(),
+                            got.map(|m| (m.time, m.integrity)),
+                            want.map(|m| (m.time, m.integrity))
+                        ));
+                    }
+                }
+            }
             written.push(rec.clone());
             let phase = format!("after damage {:?} and append #{i} {:?}", c.damages, r.via);
             judge(&ctx, &c.keys, &written, st, &phase)?;
